@@ -1347,6 +1347,23 @@ pub fn gen_body(
             locals.push(t);
         }
     }
+    // when a group has 128 or more locals, half of the bodies use every one
+    // of them (so that the emitted run count needs a two-byte LEB too)
+    let big_use: Option<(usize, usize)> = {
+        let mut at = sig.params.len();
+        let mut found = None;
+        for (n, _) in &groups {
+            if *n >= 128 {
+                found = Some((at, *n as usize));
+            }
+            at += *n as usize;
+        }
+        if found.is_some() && ch.bool() {
+            found
+        } else {
+            None
+        }
+    };
     let declared_from_groups = locals.len();
     let mut g = BodyGen {
         env,
@@ -1371,6 +1388,12 @@ pub fn gen_body(
     if let Some(t) = tag {
         g.emit(Operator::I64Const { value: t });
         g.emit(Operator::Drop);
+    }
+    if let Some((first, n)) = big_use {
+        for k in 0..n {
+            g.emit(Operator::LocalGet { local_index: (first + k) as u32 });
+            g.emit(Operator::Drop);
+        }
     }
     g.budget = 1 + g.ch.below(cfg.max_ops);
     g.gen_seq();
@@ -2411,15 +2434,28 @@ pub fn generate(data: &[u8], cfg: &GenCfg) -> Generated {
         if ch.chance(1, 8) {
             f = we::ProducersField::new();
         }
-        ps.field("processed-by", &f);
-        if ch.chance(1, 6) {
-            ps.field("sdk", &we::ProducersField::new());
-        }
+        // (rustc and clang write `language` before `processed-by`)
+        let language_first = ch.bool();
+        let mut lang = None;
         if ch.bool() {
             let mut l = we::ProducersField::new();
             l.value("C99", "");
             l.value("Rust", "1.70");
-            ps.field("language", &l);
+            lang = Some(l);
+        }
+        if language_first {
+            if let Some(l) = &lang {
+                ps.field("language", l);
+            }
+        }
+        ps.field("processed-by", &f);
+        if ch.chance(1, 6) {
+            ps.field("sdk", &we::ProducersField::new());
+        }
+        if !language_first {
+            if let Some(l) = &lang {
+                ps.field("language", l);
+            }
         }
         m.section(&ps);
         spec.has_producers = true;
